@@ -113,6 +113,10 @@ impl Aff {
         self.mul(&l()).is_identity()
     }
     pub fn basepoint() -> Aff {
+        static B: std::sync::OnceLock<Aff> = std::sync::OnceLock::new();
+        *B.get_or_init(Aff::basepoint_compute)
+    }
+    fn basepoint_compute() -> Aff {
         // y = 4/5, x even
         let y = Fp::from_u64(4).div(&Fp::from_u64(5));
         let mut b = y.to_bytes();
@@ -161,6 +165,10 @@ impl Proj {
 
 /// A generator of E[8]: a point of exact order 8 (computed, not copied from dalek).
 pub fn torsion_generator() -> Aff {
+    static T: std::sync::OnceLock<Aff> = std::sync::OnceLock::new();
+    *T.get_or_init(torsion_generator_compute)
+}
+fn torsion_generator_compute() -> Aff {
     // Find by cofactor-killing the l-part of a deterministic non-subgroup point.
     // Try y = 2, 3, ... until a curve point P with [l]P of order exactly 8.
     let mut y = 2u64;
